@@ -112,5 +112,38 @@ class Rat:
     def subst_zero(self, atom):
         return Rat(self.n.subst_zero(atom), self.d.subst_zero(atom))
 
+    def equals_mod_identities(self, o):
+        """equality modulo tan = sin/cos, sin^2 + cos^2 = 1 and their
+        hyperbolic counterparts (tanh = sinh/cosh, cosh^2 - sinh^2 = 1): the
+        cross-multiplied difference, cleared of tan / tanh and reduced by
+        cos^2 -> 1 - sin^2, cosh^2 -> 1 + sinh^2, vanishes"""
+        p = self.n * o.d - o.n * self.d
+        for t_, s_, c_, sign in (("tan", "sin", "cos", -1),
+                                 ("tanh", "sinh", "cosh", 1)):
+            args = {a[len(t_) + 1:-1] for k in p.t for a, _ in k
+                    if a.startswith(t_ + "(") and a.endswith(")")} | {
+                a[len(c_) + 1:-1] for k in p.t for a, _ in k
+                if a.startswith(c_ + "(") and a.endswith(")")}
+            for x in sorted(args):
+                ta, sa, ca = f"{t_}({x})", f"{s_}({x})", f"{c_}({x})"
+                top = max((e for k in p.t for a, e in k if a == ta), default=0)
+                r = Poly()
+                for k, v in p.t.items():
+                    d = dict(k)
+                    e = d.pop(ta, 0)
+                    d[sa] = d.get(sa, 0) + e
+                    d[ca] = d.get(ca, 0) + (top - e)
+                    ce = d.pop(ca, 0)
+                    term = Poly({tuple(sorted((a, n) for a, n in d.items()
+                                              if n)): v})
+                    one_pm = Poly.const(1) + Poly({((sa, 2),): Fraction(sign)})
+                    for _ in range(ce // 2):
+                        term = term * one_pm
+                    if ce % 2:
+                        term = term * Poly.atom(ca)
+                    r = r + term
+                p = r
+        return p.is_zero()
+
     def __repr__(self):
         return f"({self.n}) / ({self.d})"
